@@ -135,11 +135,12 @@ def getOptionalType (unionOp : Bool) (s : Str) : Str :=
 
 /-! ### The type tree -/
 
-/-- `Import(from_, import_, alias)` -/
+/-- `Import(from_, import_, alias, reference_path)` -/
 structure Imp where
   from_ : Option Str
   name : Str
   alias : Option Str := none
+  refPath : Option Str := none
   deriving DecidableEq, Repr, Inhabited
 
 /-- what `type_hint` reads of `DataType.reference`: `short_name`, and whether
